@@ -195,6 +195,39 @@ def expected_logs(specs):
     return out
 
 
+NATIVE_KERNELS = ["K1", "K2", "K4", "K6", "K7", "K8", "K9"]       # K3 uses a library kernel, K5 a kirin-only list constructor
+
+
+def source_reference(ctx, specs, expect):
+    """the reference logs above come from the implementation itself (the unspecialised kernel under a spec-carrying interpreter); here
+    the SOURCE of the shared subroutines and of each kernel is evaluated natively under each spec and the events must be the same -
+    a shared subroutine that already carries some spec's paths when it is defined makes every route agree on the wrong events"""
+    from gen import move_native
+    w = World(specs)
+    n = 0
+    for kname in NATIVE_KERNELS:
+        for sk, S in specs.items():
+            src = SHARED + "\n@move\n" + KERNELS[kname]
+            nat = move_native.run_native(src, KARGS.get(kname, ()), S, kernel_ns={"hop": w.ns["hop"]}, main=kname)
+            ctx.evaluations += 1
+            n += 1
+            imp = expect[(kname, sk)]
+            if nat[0] != "ok":
+                if imp[0] == "ok":
+                    ctx.fail({"kind": "kernel-behaviour-differs", "kernel": kname, "reference": "source"}, {"history": [], "kernel": kname, "spec": sk},
+                             f"{kname} under spec {sk}: the source evaluated natively raises ({nat[-1]}) but the kernel runs")
+                continue
+            got = tuple(events.events_text(nat[1], tc.PosTable()))
+            if imp[0] != "ok" or imp[1] != got:
+                k = next((j for j in range(min(len(got), len(imp[1]))) if got[j] != imp[1][j]), min(len(got), len(imp[1])))
+                ctx.fail({"kind": "kernel-observes-wrong-spec", "kernel": kname, "reference": "source"}, {"history": [], "kernel": kname, "spec": sk, "source_reference": True},
+                         f"{kname} run unspecialised under spec {sk} executes events that differ from its source evaluated under that spec at event {k}: "
+                         f"{(imp[1][k] if k < len(imp[1]) else '<none>')[:110]} vs {(got[k] if k < len(got) else '<none>')[:110]}")
+            else:
+                ctx.nt(("source-reference", kname, sk))
+    ctx.count("kernels whose reference log was also obtained by evaluating the source natively", n)
+
+
 def run_history(ctx, hist, specs, expect, base_behaviour):
     """hist: list of ('compile', K, specKey) | ('run', K) | ('run-shared',)"""
     w = World(specs)
@@ -245,6 +278,7 @@ def run(ctx):
             ctx.obligation(f"reference run of {k} under spec {sk} succeeds", False, str(v)[:200])
     if len({expect[("K1", "A")], expect[("K1", "B")]}) != 2:
         ctx.obligation("the two specs are distinguishable by the kernels", False)
+    source_reference(ctx, specs, expect)
     ctx.rule = ("histories over 3 kernels sharing 4 generated subroutines (spec lookups of all kinds, loops, a device call) and the library's "
                 "move_by_waypoints, 2 specs with the same zone names but different geometry/constants: every order of compiling 2-3 kernels with "
                 "every assignment of specs, interleaved with executions (exhaustive in the thorough tier, sampled in quick); after every step: "
@@ -274,11 +308,16 @@ def run(ctx):
               # a shared subroutine handing out a closure that captured a looking-up closure, compiled against two specs in both orders
               [("compile", "K8", "A"), ("run-shared",), ("compile", "K8", "B"), ("run", "K8")],
               [("compile", "K8", "B"), ("compile", "K1", "A"), ("run", "K8"), ("compile", "K8", "A")],
+              # a device function built at RUN time (run-time tones) from a tweezer kernel that looks the spec up, by kernels compiled with
+              # different specs and executed one after the other in both orders
+              [("compile", "K5", "A"), ("run", "K5"), ("compile", "K5", "B"), ("run", "K5")],
+              [("compile", "K5", "B"), ("compile", "K1", "A"), ("run", "K5"), ("compile", "K5", "A"), ("run", "K5")],
+              [("compile", "K1", "A"), ("compile", "K5", "C"), ("run", "K5"), ("compile", "K5", "B"), ("run", "K5")],
               # a constant only B defines, asked for by a kernel compiled with A / C after B has been used
               [("compile", "K1", "B"), ("compile", "K9", "A"), ("run", "K9")],
               [("compile", "K9", "B"), ("run", "K9"), ("compile", "K9", "C"), ("compile", "K2", "A")]]
     if ctx.quick:
-        hists = ctx.rng.sample(hists, 22) + hists[-8:]
+        hists = ctx.rng.sample(hists, 22) + hists[-11:]
     elif len(hists) > 700:
         # six kernels: every history of two compilations, and a sample of the histories of three
         two = [h for h in hists if sum(1 for x in h if x[0] == "compile") == 2]
@@ -334,5 +373,9 @@ def replay(data):
         def hist(s, *a): pass
         def nt(s, *a): pass
     c = C()
+    c.count = lambda *a: None
+    if inp.get("source_reference"):
+        source_reference(c, specs, expected_logs(specs))
+        return bool(c.fails), "; ".join(c.fails[:2])[:300] or "the kernels execute the events of their source"
     run_history(c, [tuple(h) for h in inp["history"]], specs, expected_logs(specs), World(specs).shared_behaviour())
     return bool(c.fails), "; ".join(c.fails[:2]) or "history is isolated"
